@@ -317,6 +317,10 @@ pub enum Family {
     /// ranks next to the castler's home rank (it can take an unmoved rook, or move along the
     /// enemy back rank while the rights are still there); walked one ply deep
     Intruder,
+    /// a pawn on its home square on every file with two enemy pawns on any two squares of the
+    /// four middle ranks (beside the target square, one file further, or on the far edge of the
+    /// neighbouring rank): the double step and what it records; walked one ply deep
+    DoublePush,
 }
 
 pub fn family_name(f: Family) -> String {
@@ -326,6 +330,7 @@ pub fn family_name(f: Family) -> String {
         Family::EnPassant => "en-passant-discoveries".into(),
         Family::Promotion => "promotion-targets".into(),
         Family::Intruder => "king-among-unmoved-rooks".into(),
+        Family::DoublePush => "double-steps-with-enemy-pawns-anywhere".into(),
     }
 }
 
@@ -336,6 +341,7 @@ pub fn family_size(f: Family) -> u64 {
         Family::EnPassant => 2 * 14 * 64 * 4 * 64 * 3,
         Family::Promotion => 2 * 8 * 5 * 5 * 3 * 6 * 16,
         Family::Intruder => 2 * 3 * 16 * 64 * 5,
+        Family::DoublePush => 2 * 8 * 32 * 32,
     }
 }
 
@@ -412,6 +418,22 @@ pub fn family_nth(f: Family, mut i: u64) -> Option<Pos> {
             p.castle[base] = rooks != 2;
             p.castle[base + 1] = rooks != 1;
             p.white_to_move = !white;
+        }
+        Family::DoublePush => {
+            let white = take(2) == 0; // the side that pushes
+            let f = take(8) as i8;
+            let a = take(32) as u8 + 16; // squares of ranks 3..6
+            let b = take(32) as u8 + 16;
+            p.b[o::sq(4, 0) as usize] = o::mk(o::KING, true);
+            p.b[o::sq(4, 7) as usize] = o::mk(o::KING, false);
+            let home = o::sq(f, if white { 1 } else { 6 }) as usize;
+            p.b[home] = o::mk(o::PAWN, white);
+            for q in [a as usize, b as usize] {
+                if p.b[q] == o::EMPTY {
+                    p.b[q] = o::mk(o::PAWN, !white);
+                }
+            }
+            p.white_to_move = white;
         }
         Family::EnPassant => {
             let white = take(2) == 0; // the capturing side
@@ -534,6 +556,7 @@ pub fn all_families() -> Vec<Family> {
         Family::EnPassant,
         Family::Promotion,
         Family::Intruder,
+        Family::DoublePush,
     ]
 }
 
